@@ -42,6 +42,8 @@ pub struct GraphOpts {
     pub decoys: bool,
     /// every run command also leaves an execution marker
     pub mark_all: bool,
+    /// now and then add a text-only source whose output has a boundary size (0, 8192, ...)
+    pub sized: bool,
 }
 
 impl Default for GraphOpts {
@@ -57,6 +59,7 @@ impl Default for GraphOpts {
             absolute: true,
             decoys: true,
             mark_all: false,
+            sized: true,
         }
     }
 }
@@ -307,6 +310,22 @@ pub fn gen_graph_project(rng: &mut Rng, o: &GraphOpts, n: usize, edges: &BTreeSe
         }
         b.push(format!("file {i} ends"));
         p.add_file(&paths[i], B(b.render(rng).into_bytes()));
+    }
+    if o.sized && rng.chance(1, 6) {
+        // buffer-size boundaries of readers and writers (8 KiB) and the empty output
+        let size = *rng.pick(&[0usize, 0, 1, 8191, 8192, 8192, 8193, 16384, 65536]);
+        let mut text = String::new();
+        while text.len() + 64 <= size {
+            text.push_str(&format!("{:063}\n", text.len() / 64));
+        }
+        while text.len() < size {
+            if text.len() + 1 == size {
+                text.push('\n');
+            } else {
+                text.push('z');
+            }
+        }
+        p.add_file(&format!("sized{size}.txt.txtpp"), B(text.into_bytes()));
     }
     if o.decoys {
         for d in ["txtpp", ".txtpp", "a.txtpp.b.c", "sub/notes.txt", "lib/f0.txt.bak"] {
